@@ -133,6 +133,18 @@ class Facts:
         for st in self.tree.body:
             self._module_stmt(st, st)
         self._function_writes()
+        # a method taken over from another class in the class body (`args = STypeInstruction.args`) is that function
+        for ci in self.classes.values():
+            for st in ci.node.body:
+                if (isinstance(st, ast.Assign) and len(st.targets) == 1 and isinstance(st.targets[0], ast.Name)
+                        and isinstance(st.value, ast.Attribute) and isinstance(st.value.value, ast.Name)):
+                    other = self.classes.get(st.value.value.id)
+                    if other is not None and other is not ci and st.targets[0].id not in ci.methods:
+                        for c_ in self.mro(other.name):
+                            fn_ = self.classes[c_].methods.get(st.value.attr)
+                            if fn_ is not None:
+                                ci.methods[st.targets[0].id] = fn_
+                                break
         for ci in self.classes.values():
             self._class_details(ci)
 
